@@ -250,7 +250,7 @@ func (ke *kEval) run(points []crashPoint) {
 	sel := map[int]bool{}
 	maxPts := 70
 	if thorough {
-		maxPts = 1500
+		maxPts = 400
 	}
 	if len(points) <= maxPts {
 		for i := range points {
@@ -423,6 +423,7 @@ func (ke *kEval) report(pt crashPoint, f *Fault, symptom, format string, a ...an
 }
 
 func (ke *kEval) evalPoint(pt crashPoint, replay *Fault) {
+	heartbeat()
 	if ke.def.ID == "C06" {
 		ke.evalPowerLoss(pt, replay)
 		return
